@@ -766,17 +766,36 @@ func execute(c *drv.Ctx, dd M) bool {
 					altIdx = append(altIdx, i+1)
 				}
 			}
+			// besides no Accept and each declared type alone: an UNdeclared type listed first, a declared one after it with lower q
+			type acc struct{ first, ac string }
+			var accs []acc
+			for _, ac := range accepts {
+				accs = append(accs, acc{"", ac})
+				if ac == "" {
+					continue
+				}
+				for _, f := range []string{jsonMime, "text/javascript"} {
+					if !contains(d.producesFor(o), f) {
+						accs = append(accs, acc{f, ac})
+						break
+					}
+				}
+			}
 			for _, ct := range ctypes {
-				for _, ac := range accepts {
+				for _, ac := range accs {
 					for _, ai := range altIdx {
 						var creds []string
 						if ai > 0 {
 							creds = alts[ai-1]
 						}
 						ran = 0
-						status, body, pmsg := serve(h, o, ct, ac, creds)
-						c.W.Event("serve", M{"ri": ri, "op": oi + 1, "ctype": trace.B(ct), "accept": trace.B(ac), "alt": ai,
-							"status": status, "ran": ran, "class": classify(status, body, pmsg, ran)})
+						hdr := ac.ac
+						if ac.first != "" {
+							hdr = ac.first + ", " + ac.ac + ";q=0.8"
+						}
+						status, body, pmsg := serve(h, o, ct, hdr, creds)
+						c.W.Event("serve", M{"ri": ri, "op": oi + 1, "ctype": trace.B(ct), "accept": trace.B(ac.ac), "accept_first": trace.B(ac.first),
+							"alt": ai, "status": status, "ran": ran, "class": classify(status, body, pmsg, ran)})
 					}
 				}
 			}
